@@ -1,4 +1,4 @@
-import Pyrtma.Proofs.ManagerSimCtl
+import Pyrtma.Proofs.ManagerSimData
 /-!
 # Refinement of the history-based Spec by the manager model M1 — part 5: CONNECT
 
@@ -774,6 +774,6 @@ theorem segment_ok {cfg : Cfg} (ok : CfgOK cfg) (hfuel : cfg.fuel = 0) (hperm : 
           · have hn' : (rd.h.mtype == cfg.mtSetName) = false := by simpa using hn
             by_cases hr : (rd.h.mtype == cfg.mtModuleReady) = true
             · exact seg_ready ok hfuel inv rd m hm am hget hal hsm s2 evs he' hb' q hc' hd' hs' hn' hr
-            · exact seg_data ok hfuel inv rd m hm am hget hal hsm s2 evs he' hb' q hc' hd' hs' hn' (by simpa using hr)
+            · exact seg_data ok hfuel hperm inv rd m hm am hget hal s2 evs he' hb' q hc' hd' hs' hn' (by simpa using hr)
 
 end Pyrtma.Mgr
